@@ -60,14 +60,17 @@ func WorkerMain(t Target) {
 	sameProc := fs.Bool("same-process", false, "replay: run all builds in this process instead of one process each")
 	_ = fs.Parse(os.Args[2:])
 	Tier = *tier
-	defer CleanupBase()
+	exit := func(code int) {
+		CleanupBase() // os.Exit runs no deferred calls
+		os.Exit(code)
+	}
 	switch mode {
 	case "run":
 		Isolate = *isolate
-		os.Exit(runBatch(t, *prop, *seed, *from, *to, *out, *maxS, *shrinkBudget, *evlog))
+		exit(runBatch(t, *prop, *seed, *from, *to, *out, *maxS, *shrinkBudget, *evlog))
 	case "replay":
 		Isolate = !*sameProc
-		os.Exit(replayFile(t, *file, *retries))
+		exit(replayFile(t, *file, *retries))
 	case "dumpworlds":
 		// development aid: materialise generated worlds for differential runs of real binaries
 		for i := 0; i < *to; i++ {
@@ -87,44 +90,44 @@ func WorkerMain(t Target) {
 			b, _ := json.Marshal(args)
 			_ = os.WriteFile(filepath.Join(dir, "args.json"), b, 0644)
 		}
-		os.Exit(0)
+		exit(0)
 	case "exec1":
 		Exec1(t)
-		os.Exit(0)
+		exit(0)
 	case "genbatch":
 		o := GenBatch(t, *prop, *seed, *to, *file, *from)
 		writeJSON(*out, o)
-		os.Exit(0)
+		exit(0)
 	case "genone":
 		b, err := os.ReadFile(*file)
 		if err != nil {
 			fmt.Fprintln(os.Stderr, err)
-			os.Exit(2)
+			exit(2)
 		}
 		var v struct {
 			Cfg *gen.Cfg `json:"cfg"`
 		}
 		if err := json.Unmarshal(b, &v); err != nil || v.Cfg == nil {
 			fmt.Fprintln(os.Stderr, "no cfg in", *file, err)
-			os.Exit(2)
+			exit(2)
 		}
 		o := GenOne(t, v.Cfg, *out)
 		writeJSON(filepath.Join(*out, "genout.json"), o)
-		os.Exit(0)
+		exit(0)
 	case "selfout":
 		data, code := SelfOutput(t)
 		if code != 0 || data == "" {
 			fmt.Fprintln(os.Stderr, "self regeneration failed, exit", code)
-			os.Exit(1)
+			exit(1)
 		}
 		if err := os.WriteFile(*out, []byte(data), 0644); err != nil {
 			fmt.Fprintln(os.Stderr, err)
-			os.Exit(2)
+			exit(2)
 		}
-		os.Exit(0)
+		exit(0)
 	default:
 		fmt.Fprintln(os.Stderr, "unknown mode", mode)
-		os.Exit(2)
+		exit(2)
 	}
 }
 
